@@ -313,6 +313,77 @@ func TestVerif_C20(t *testing.T) {
 		})
 		r.Eval(true, "scripted", ws, wc, mode, len(script), side)
 	})
+	// (b') credit the endpoint has regained but not yet advertised does not count: the peer fills
+	// the connection window exactly, then sends ONE packet with something that releases credit on
+	// the spot (RESET_STREAM of a stream with unread data) followed by STREAM data beyond the
+	// largest MAX_DATA it has ever been sent.
+	r.Cases("scripted-overrun-before-max-data", r.N(300, 3000), func(c *verifrt.Case) {
+		rng := c.Rng
+		side := []connSide{serverSide, clientSide}[rng.IntN(2)]
+		styp := []streamType{bidiStream, uniStream}[rng.IntN(2)]
+		ws := []int64{500, 1000, 4000}[rng.IntN(3)]
+		a := 1 + rng.Int64N(ws) // stream A: a bytes, unread
+		b := rng.Int64N(ws - 1) // stream B: b bytes (room left in its stream window)
+		wc := a + b             // connection window: exactly what the two streams carry
+		over := 1 + rng.Int64N(min(ws-b, 3))
+		within := rng.IntN(4) == 0 // control: the second frame stays inside MAX_DATA (zero-length)
+		c.Describe(map[string]any{"side": fmt.Sprint(side), "stream_window": ws, "conn_window": wc, "stream_a": a, "stream_b": b, "excess": over, "control_within": within})
+		synctest.Test(t, func(t *testing.T) {
+			tc := vlpScripted(t, side, func(cfg *Config) {
+				cfg.MaxStreamReadBufferSize = ws
+				cfg.MaxConnReadBufferSize = wc
+			})
+			idA, idB := newStreamID(side.peer(), styp, 0), newStreamID(side.peer(), styp, 1)
+			send := func(id streamID, off, n int64) {
+				for n > 0 {
+					l := min(n, 1000)
+					tc.writeFrames(packetType1RTT, debugFrameStream{id: id, off: off, data: make([]byte, l)})
+					off, n = off+l, n-l
+				}
+			}
+			send(idA, 0, a)
+			if b > 0 {
+				send(idB, 0, b)
+			} else {
+				tc.writeFrames(packetType1RTT, debugFrameStream{id: idB, off: 0, data: []byte{}})
+			}
+			pre := vlpDrain(tc)
+			if code, reason, closed := vlpCloseCode(pre); closed {
+				c.Violation("legal-data-rejected", "peer filled the connection window exactly (%d + %d = MAX_DATA %d) and got CONNECTION_CLOSE %v %q", a, b, wc, code, reason)
+				return
+			}
+			maxData := wc
+			for _, f := range pre {
+				if md, ok := f.(debugFrameMaxData); ok && md.max > maxData {
+					maxData = md.max
+				}
+			}
+			if maxData != wc {
+				r.Event("overrun_before_max_data_skipped_limit_already_raised", 1)
+				return
+			}
+			n := over
+			if within {
+				n = 0
+			}
+			tc.writeFrames(packetType1RTT, debugFrameResetStream{id: idA, code: 3, finalSize: a}, debugFrameStream{id: idB, off: b, data: make([]byte, n)})
+			frames := vlpDrain(tc)
+			code, reason, closed := vlpCloseCode(frames)
+			switch {
+			case within && closed:
+				c.Violation("legal-data-rejected", "RESET_STREAM + an empty STREAM frame inside MAX_DATA %d got CONNECTION_CLOSE %v %q", wc, code, reason)
+			case within:
+				r.Event("within_limit_scripts_accepted", 1)
+			case !closed:
+				c.Violation("overrun-not-rejected:before-max-data-was-sent", "the largest MAX_DATA the endpoint had sent was %d and the peer had used all of it; one packet then carried RESET_STREAM(stream %d, final size %d) and STREAM [%d,%d) on stream %d: %d bytes beyond the advertised MAX_DATA, and no CONNECTION_CLOSE followed; frames sent instead: %v", wc, idA, a, b, b+n, idB, n, frames)
+			case code != errFlowControl:
+				c.Violation("overrun-wrong-error-code", "expected FLOW_CONTROL_ERROR, got code %v (%q)", code, reason)
+			default:
+				r.Event("overruns_rejected_before_max_data_was_sent", 1)
+			}
+		})
+		r.Eval(true, "premaxdata", side, styp, ws, a, b, over, within)
+	})
 	// (c) deterministic script: asymmetric peer transport parameters, late and stale limit
 	// raises, loss and PTO (zz_verif_util_scriptedlimits_test.go)
 	nsl := r.N(1500, 40000)
@@ -335,5 +406,6 @@ func TestVerif_C20(t *testing.T) {
 	r.Require("stream_frames_ending_exactly_at_a_limit", 20)
 	r.Require("max_updates_processed", 100)
 	r.Require("overruns_rejected_with_flow_control_error", 50)
+	r.Require("overruns_rejected_before_max_data_was_sent", 100)
 	r.Require("within_limit_scripts_accepted", 50)
 }
